@@ -28,7 +28,9 @@ FAM = progs.family(unique_writers=True, per_task=True, p_loop=0.0, p_late_join=0
 
 
 def features(sess):
-    return dict(getattr(sess, "rel_features", {}) or {})
+    f = dict(getattr(sess, "rel_features", {}) or {})
+    f["enumerated_exhaustively"] = bool(f.get("all_orders_exhaustive"))
+    return f
 
 
 def nontrivial(r):
@@ -39,9 +41,10 @@ def nontrivial(r):
 def run(ctx):
     fam = dict(FAM, tier=ctx["tier"])
     return common.conductor_run(
-        ctx, "C08", fam, common.project_full, monitors.c08, features, nontrivial, 150, 2500,
+        ctx, "C08", fam, common.project_full, monitors.c08, features, nontrivial, 150, 1200,
         rule="acyclic generated definitions with single-writer publishes and per-task outcomes; each scenario is "
-             "simulated under 3 (quick) / 8 (thorough) duration assignments, i.e. completion orders; non-trivial = "
+             "simulated under 3 (quick) / 8 (thorough) duration assignments, i.e. completion orders, and in the thorough tier "
+             "scenarios with <= 6 executed actions are enumerated over ALL completion orders (cap 150); non-trivial = "
              ">= 2 distinct orders actually occurred and >= 3 records; distinct = distinct (definition, history)")
 
 
